@@ -1,8 +1,103 @@
 import AFV.Driver.Proto
+import AFV.Model.Geometry
 namespace AFV.Driver.C24
-open Lean AFV.Proto
+open Lean AFV.Proto AFV.Geometry
 
-/-- Handler for property C24 requests (stub: not implemented yet). -/
-def handle (_req : Json) : Json := err "unimplemented"
+private def box? (j : Json) : Option Box := do
+  let a ← getArr? j
+  a.toList.mapM (fun e => do
+    let p ← getArr? e
+    if p.size != 2 then none else
+    let lo ← getInt? p[0]!
+    let n ← getNat? p[1]!
+    pure (lo, n))
+
+private def aff? (j : Json) : Option Aff := do
+  let cs ← (field? j "coeffs").bind intList?
+  let c ← (field? j "const").bind getInt?
+  pure ⟨cs, c⟩
+
+private def affs? (j : Json) : Option (List Aff) := do
+  let a ← getArr? j
+  a.toList.mapM aff?
+
+private def optNat : Option Nat → Json
+  | none => Json.null
+  | some n => ofNat n
+
+/-- ops:
+  {"op":"box","box":[[lo,n],…]}                         → bounds, ncomputes|null, card
+  {"op":"tensor","images":[{"box":…,"proj":[aff…]},…]} → card of the data space, is_box, size|null, extents
+  {"op":"access","box":…,"proj":[aff…],"tile":[t…]}    → per (rank, variable): stride/steps/halo code/halo spec; occupancy code/spec on the tile
+  {"op":"interval","terms":[[a,n],…]}                   → closed-form interval condition vs enumeration -/
+def handle (req : Json) : Json :=
+  match (field? req "op").bind getStr? with
+  | some "box" =>
+    match (field? req "box").bind box? with
+    | some b =>
+      if b.any (fun e => e.2 == 0) then err "empty-box" else
+      Json.mkObj [("bounds", ofNatList (rankVariableBounds b)), ("ncomputes", optNat (nComputes b)),
+                  ("card", ofNat (points b).length)]
+    | none => err "malformed"
+  | some "tensor" =>
+    match (field? req "images").bind getArr? with
+    | some imgs =>
+      match imgs.toList.mapM (fun j => do
+          let b ← (field? j "box").bind box?
+          let ps ← (field? j "proj").bind affs?
+          pure (b, ps)) with
+      | some l =>
+        match l with
+        | [] => err "malformed"
+        | (b0, ps0) :: _ =>
+          if l.any (fun e => e.1.any (fun x => x.2 == 0)) then err "empty-box" else
+          if l.any (fun e => e.2.length != ps0.length) then err "malformed" else
+          let _ := b0
+          let dim := ps0.length
+          let s := dataSpace (l.map (fun e => image e.2 e.1))
+          if s.isEmpty then
+            Json.mkObj [("card", ofNat 0), ("is_box", Json.bool false), ("size", Json.null), ("extents", ofNatList [])]
+          else
+            Json.mkObj [("card", ofNat s.length), ("is_box", Json.bool (isBox dim s)),
+                        ("size", optNat (sizeOrError dim s)), ("extents", ofNatList (extents dim s))]
+      | none => err "malformed"
+    | none => err "malformed"
+  | some "access" =>
+    match (field? req "box").bind box?, (field? req "proj").bind affs?, (field? req "tile").bind natList? with
+    | some b, some ps, some tile =>
+      if b.any (fun e => e.2 == 0) || tile.any (· == 0) || tile.length != b.length then err "empty-box" else
+      let shape := b.map (·.2)
+      let nv := b.length
+      let per := ps.map (fun p =>
+        Json.arr ((List.range nv).map (fun k =>
+          Json.mkObj [
+            ("stride", ofInt (strideCode p k)),
+            ("steps", ofIntList (dedup ((points b).map (fun x => stepSpec p x k)))),
+            ("halo_code", ofInt (haloCode p shape k)),
+            ("halo_spec", ofNat (haloSpec p b k)),
+            ("halo_closed", ofNat (absSum p.coeffs (setN b k 1)))])).toArray)
+      let tb := (b.zip tile).map (fun e => (e.1.1, e.2))
+      Json.mkObj [("pairs", Json.arr per.toArray),
+                  ("occ_code", ofInt (occCode ps tile)),
+                  ("occ_spec", ofNat (occSpec ps tb)),
+                  ("occ_image_bbox", ofNat (cardBox ps.length (image ps tb)))]
+    | _, _, _ => err "malformed"
+  | some "interval" =>
+    match (field? req "terms").bind getArr? with
+    | some ts =>
+      match ts.toList.mapM (fun e => do
+          let p ← natList? e
+          match p with
+          | [a, n] => some (a, n)
+          | _ => none) with
+      | some terms =>
+        if terms.any (fun e => e.2 == 0) then err "empty-box" else
+        let b : Box := terms.map (fun e => ((0 : Int), e.2))
+        let p : Aff := ⟨terms.map (fun e => (e.1 : Int)), 0⟩
+        let img := image [p] b
+        Json.mkObj [("cond", Json.bool (intervalCond 0 terms)), ("is_box", Json.bool (isBox 1 img)), ("card", ofNat img.length)]
+      | none => err "malformed"
+    | none => err "malformed"
+  | _ => err "bad-op"
 
 end AFV.Driver.C24
